@@ -330,7 +330,7 @@ fn child_main(ord: usize, sh: Arc<Shared>, early: Option<(usize, Vec<u8>, Exit)>
         input.extend(g.pipe.drain(..want));
         sh.cv.notify_all();
         drop(g);
-        state::with(|s| s.event(|| format!("child #{ord} read {want}")));
+        state::with(|s| s.event_k([3, ord as u64, want as u64, 0], || format!("child #{ord} read {want}")));
     }
 
     // The child stops reading: close its end (pending writes get EPIPE from now on).
@@ -471,7 +471,7 @@ impl io::Write for ChildStdin {
 
         if eintr {
             rec(ord, |c| c.eintrs += 1);
-            state::with(|s| s.event(|| format!("write #{ord} call {call} -> EINTR")));
+            state::with(|s| s.event_k([4, ord as u64, call as u64, 0], || format!("write #{ord} call {call} -> EINTR")));
             return Err(io::Error::from_raw_os_error(EINTR));
         }
 
@@ -508,7 +508,7 @@ impl io::Write for ChildStdin {
             if was_short || n < buf.len() {
                 c.short_writes += 1;
             }
-            s.event(|| format!("write #{ord} call {call} len {} -> {n}", buf.len()));
+            s.event_k([5, ord as u64, ((call as u64) << 32) | buf.len() as u64, n as u64], || format!("write #{ord} call {call} len {} -> {n}", buf.len()));
         });
         Ok(n)
     }
